@@ -237,6 +237,8 @@ path:                 /* at this point, p must point to an absolute path */
   if (!len)
     goto end;
 
+  /* q is where host / port ended; the path may be empty ("coap://host?query") */
+  p = q;
   if (*q == '/') {
     p = ++q;
     --len;
